@@ -55,9 +55,11 @@ def parse_trace(text):
         elif line.startswith('TABLE '):
             _, num, size, rest = line.split(' ', 3)
             ents, status = rest.rsplit(' status=', 1)
+            if not cur['edits']: continue        # threaded builds: a background edit split across two calls
             cur['edits'][-1]['tables'][int(num)] = {'entries': ents, 'status': int(status), 'size': int(size)}
         elif line.startswith('TABLEHEX '):
             _, num, hx_ = line.split(' ', 2)
+            if not cur['edits']: continue
             cur['edits'][-1].setdefault('tablehex', {})[int(num)] = hx_.strip()
         elif line.startswith('LAYOUT '):
             cur['layout'] = line[7:]
